@@ -9,6 +9,7 @@ import execreplay
 class SubRun:
     counter = 0
     counter_c = 0
+    counter_r = 0
 
     def __init__(self, world, case):
         self.world = world
@@ -45,7 +46,9 @@ class SubRun:
                 case = dict(case, nodes=nodes)
                 self.case = case
                 reverse = True
-        self.doc = render.DocText(nodes, reverse_defs=reverse)
+        # (every other document: its fragments are named like its operations - two separate name spaces)
+        SubRun.counter_r += 1
+        self.doc = render.DocText(nodes, reverse_defs=reverse, rename_frags=("op" if SubRun.counter_r % 2 else False))
         self.events = case["events"]
         self.tables = []
         for k, out in enumerate(case["out"]):
